@@ -12,16 +12,19 @@ OPS = ["create_a", "create_b", "write_a", "write_b", "delete_a", "delete_b", "re
 # fixed multi-step user stories whose schedules are explored more deeply (slots per operation given with each)
 STORIES = {
     # (operations, gap after each: n fine slots | "Q" run until quiet | ("Q", n) either)
-    "child-renamed-then-folder": (["mv:/d/a:/d/b", "rendir_d_e"], [2, 2]),
-    "new-child-folder-renamed-child-edited": (["create_d_n", "rendir_d_e", "write_e_n"], [("Q", 1), 2, 2]),
+    "child-renamed-then-folder": (["mv:/d/a:/d/b", "rendir_d_e"], [1, 2]),
+    "new-child-folder-renamed-child-edited": (["create_d_n", "rendir_d_e", "write_e_n"], [("Q", 1), 2, 1]),
     "folder-renamed-recreated-child-moved-back": (["rendir_d_e", "mkdir_d", "mv:/e/a:/d/a"], [("Q", 1), 1, 2]),
-    "folder-renamed-then-emptied-and-removed": (["rendir_d_e", "delete_e_a", "rmdir:/e"], [2, 1, 1]),
-    "renamed-and-back": (["rename_a_b", "mv:/b:/a"], [("Q", 3), 2]),
-    "folder-renamed-and-back": (["rendir_d_e", "mvdir:/e:/d"], [("Q", 3), 2]),
-    "edited-then-renamed": (["write_a", "rename_a_b", "write_b"], [("Q", 1), 2, 1]),
+    "folder-renamed-then-emptied-and-removed": (["rendir_d_e", "delete_e_a", "rmdir:/e"], [2, 1, 0]),
+    "renamed-and-back": (["mv:/a:/x", "mv:/x:/a"], [("Q", 2), 2]),
+    "folder-renamed-and-back": (["rendir_d_e", "mvdir:/e:/d"], [("Q", 2), 2]),
+    "edited-then-renamed": (["write_a", "mv:/a:/x", "write_x"], [("Q", 1), 2, 1]),
     "deleted-and-recreated": (["delete_a", "create_a", "write_a"], [("Q", 1), 2, 1]),
     "edited-three-times": (["write_a", "write_a", "write_a"], [("Q", 2), ("Q", 1), 1]),
-    "moved-into-folder-and-back": (["move_a_d", "mv:/d/a:/a"], [("Q", 2), 2]),
+    "moved-into-folder-and-back": (["mv:/b:/d/b", "mv:/d/b:/b"], [("Q", 2), 2]),
+    "renamed-onto-a-deleted-name": (["delete_b", "mv:/a:/b"], [("Q", 2), 2]),
+    "renamed-twice-then-edited": (["mv:/a:/x", "mv:/x:/y", "write_y"], [1, 2, 1]),
+    "folder-two-levels-down-then-top-folder-renamed": (["mkdir:/d/t", "mkdir:/d/t/k", "rendir_d_e"], [("Q", 1), 0, 2]),
     "swapped-through-a-temporary-name": (["mv:/a:/t", "mv:/b:/a", "mv:/t:/b"], [1, 1, 2]),
     "safe-save": (["create_t", "delete_a", "mv:/t:/a"], [1, 1, 2]),
     "folder-emptied-removed-recreated": (["delete_d_a", "rmdir_d", "mkdir_d", "create_d_a"], [1, ("Q", 1), 1, 1]),
@@ -52,6 +55,7 @@ def _factory(params, env=None):
         side = params["side"]
         h = History(lab, e, [OriginUntouched(side)])
         h.mode = params.get("slotmode")
+        h.origin = side
         try:
             first = params.get("first")
             story = STORIES[params["story"]] if params.get("story") else None
@@ -61,7 +65,14 @@ def _factory(params, env=None):
                 else:
                     op = first if (k == 0 and first) else OPS[e.choose("op", len(OPS))]
                 h.user(side, op, b"v%d" % k)
-                (h.gap(story[1][k]) if story else h.slots(params["slots"]))
+                if story and params.get("late"):
+                    # every change may be mirrored before the peer's echo events are read (slowly polled peers)
+                    last = k == len(story[0]) - 1
+                    h.gap(("S", ["", "o", "os"] if last else ["", "os", "oss", "osp", "ossp", "Q"]))
+                elif story:
+                    h.gap(story[1][k])
+                else:
+                    h.slots(params["slots"])
             h.drain()
             tl, tr = lab.tree(0), lab.tree(1)
             if tl != tr:
@@ -106,7 +117,7 @@ def jobs(tier):
     q = tier == "quick"
     combos = []
     if q:
-        combos = [(f, b, s, 2, 1) for f in ("oid", "path") for b in (1, 3) for s in (0, 1)]
+        combos = [(f, b, s, 2, 1) for f, b in (("oid", 1), ("oid", 3), ("path", 3)) for s in (0, 1)]
     else:
         combos = [(f, b, s, 2, 2) for f in ("oid", "path") for b in (3,) for s in (0, 1)] + [(f, 1, s, 2, 1) for f in ("oid", "path") for s in (0, 1)] + \
                  [(f, b, s, 2, 1) for f in ("mixed",) for b in (1, 3) for s in (0, 1)] + \
@@ -123,10 +134,11 @@ def jobs(tier):
             for s_ in (0, 1):
                 out.append({"harness": "mirror", "params": {"flavour": f, "base": 1, "side": s_, "nops": 2, "slots": 2, "first": "write_a"},
                             "label": "%s/base1/side%d/2ops/2slots/first=write_a" % (f, s_)})
-    for f in ("oid", "path") if q else ("oid", "path", "mixed"):
+    for f in ("oid", "path", "mixed"):        # 'mixed' (path ids locally, object ids remotely) is the pairing of a local folder with a cloud account
         for s_ in (0, 1):
             for name in STORIES:
                 out.append({"harness": "mirror", "params": {"flavour": f, "base": 3, "side": s_, "story": name}, "label": "%s/base3/side%d/story=%s" % (f, s_, name)})
+                out.append({"harness": "mirror", "params": {"flavour": f, "base": 3, "side": s_, "story": name, "late": True}, "label": "%s/base3/side%d/late-echo-story=%s" % (f, s_, name)})
     for f, b, s, n, sl in combos:
         for op in OPS:
             out.append({"harness": "mirror", "params": {"flavour": f, "base": b, "side": s, "nops": n, "slots": sl, "first": op},
